@@ -276,6 +276,12 @@ func runC16CaseCh(t *testing.T, c c16Case, early chan CaseOut) CaseOut {
 // runC16Burst: n datagrams in a row to n different unbound services while the sender's subscriber takes
 // `slow` (virtual) per notice: every one of them is reported, once, to the sender only.
 func runC16Burst(t *testing.T, topo, src, dst string, n int, slow time.Duration, extra int) CaseOut {
+	return runC16BurstX(t, topo, src, dst, n, slow, extra, false)
+}
+
+// closedBusy: before the burst an unrelated socket of the sender node, whose subscriber never reads, collects
+// two notices of its own and is then closed.
+func runC16BurstX(t *testing.T, topo, src, dst string, n int, slow time.Duration, extra int, closedBusy bool) CaseOut {
 	var out CaseOut
 	out.Nontrivial = true
 	bubble(t, func(t *testing.T) {
@@ -299,6 +305,57 @@ func runC16Burst(t *testing.T, topo, src, dst string, n int, slow time.Duration,
 				return
 			}
 			log.watch(fmt.Sprintf("%s:o%d", src, i), pc, done)
+		}
+		if closedBusy {
+			// five unrelated sockets with subscribers that never read; the first one collects six notices of its own, so
+			// that notices are piled up in the node's fan-out when all five are closed
+			var xs []netceptor.PacketConner
+			xdone := make(chan struct{})
+			for i := 0; i < 5; i++ {
+				xi, err := m.nodes[src].ListenPacket(fmt.Sprintf("busy%d", i))
+				if err != nil {
+					out.violate("harness:c16-listen", "%v", err)
+					return
+				}
+				_ = xi.SubscribeUnreachable(xdone) // nobody reads
+				xs = append(xs, xi)
+			}
+			x := xs[0]
+			for i := 0; i < 6; i++ {
+				x.WriteTo([]byte("x"), m.nodes[src].NewAddr(dst, fmt.Sprintf("nobody%d", i)))
+			}
+			synctest.Wait()
+			xfin := make(chan struct{})
+			go func() {
+				defer close(xfin)
+				for i := 0; i < 200; i++ {
+					moved := false
+					for _, k := range m.sortedLinks() {
+						if m.sess[k].pending() > 0 {
+							m.deliverAt(k, 0)
+							moved = true
+							break
+						}
+					}
+					if !moved {
+						return
+					}
+				}
+			}()
+			select {
+			case <-xfin:
+			case <-time.After(5 * time.Second): // the second notice waits behind the subscriber that does not read
+			}
+			for _, xi := range xs {
+				xi.Close()
+			}
+			close(xdone)
+			time.Sleep(500 * time.Millisecond)
+			synctest.Wait()
+			select {
+			case <-xfin:
+			case <-time.After(20 * time.Second):
+			}
 		}
 		snd, err := m.nodes[src].ListenPacket("snd")
 		if err != nil {
@@ -356,7 +413,7 @@ func runC16Burst(t *testing.T, topo, src, dst string, n int, slow time.Duration,
 		time.Sleep(time.Duration(n+2)*slow + 2*time.Second)
 		synctest.Wait()
 		mu.Lock()
-		ctx := fmt.Sprintf("burst topo=%s %s->%s n=%d reader=%v extra=%d", topo, src, dst, n, slow, extra)
+		ctx := fmt.Sprintf("burst topo=%s %s->%s n=%d reader=%v extra=%d after-busy-socket-closed=%v", topo, src, dst, n, slow, extra, closedBusy)
 		seen := map[string]int{}
 		for _, nt := range got {
 			seen[nt.ToService]++
@@ -387,6 +444,14 @@ func runC16Burst(t *testing.T, topo, src, dst string, n int, slow time.Duration,
 }
 
 func runC16(w *W) {
+	for _, pr := range [][3]string{{"chain2", "a", "b"}, {"square", "a", "c"}} {
+		for _, n := range []int{1, 2, 3} {
+			pr, n := pr, n
+			w.Case(fmt.Sprintf("burst after a busy unrelated socket was closed topo=%s %s->%s n=%d", pr[0], pr[1], pr[2], n), func() CaseOut {
+				return runC16BurstX(w.T, pr[0], pr[1], pr[2], n, 0, 1, true)
+			})
+		}
+	}
 	for _, pr := range [][3]string{{"chain2", "a", "b"}, {"chain3", "a", "c"}, {"square", "a", "c"}} {
 		for _, n := range []int{1, 2, 3, 5} {
 			for _, slow := range []time.Duration{0, 100 * time.Millisecond} {
@@ -483,7 +548,7 @@ func init() {
 		ID:        "C16",
 		Level:     "model_checking",
 		Technique: "exhaustive enumeration of (topology, sender, target, moment of closing relative to every delivery step, number of unrelated sockets) on real nodes in a synctest bubble with harness-owned links; every socket of every node is subscribed and must stay silent except the sender's",
-		Rule: "chains of 1-3 hops, the two-path square and local delivery; target service never bound / closed before the send / closed after each of 0..hops+1 deliveries of the send / silently dropped by a firewall rule at the destination or at a transit node; 0, 1, 4 unrelated subscribed sockets on every node (names that differ from the sender's only in letter case, have the same length, are a prefix or an extension of it); stream dials (never bound, closed before, drop rule) on 1-3 hop paths, one process each; bursts of 1, 2, 3, 5 datagrams to as many unbound services with a subscriber that reads at once or takes 100 ms per notice. " +
+		Rule: "chains of 1-3 hops, the two-path square and local delivery; target service never bound / closed before the send / closed after each of 0..hops+1 deliveries of the send / silently dropped by a firewall rule at the destination or at a transit node; 0, 1, 4 unrelated subscribed sockets on every node (names that differ from the sender's only in letter case, have the same length, are a prefix or an extension of it); stream dials (never bound, closed before, drop rule) on 1-3 hop paths, one process each; bursts of 1, 2, 3, 5 datagrams to as many unbound services with a subscriber that reads at once or takes 100 ms per notice, also right after five unrelated sockets of the sender node whose subscribers never read (one of them with six notices of its own piled up) were closed. " +
 			"Every case is a distinct configuration and non-trivial. Oracle: exactly one `service unknown` notice, on the sender's socket only, echoing source and destination, reported by the destination node; none for dropped packets; a dial ends within 5 virtual seconds because of the notice (and only by its time-outs when the packet is dropped).",
 		Assumptions: []string{"a datagram that was already handed to a live listener when it closed is outside the statement's premise (counted in counters.handed_to_listener_before_close)"},
 		Run:         runC16,
